@@ -14,7 +14,7 @@ RULE = ("Hypothesis-generated synthetic rulesets with the Markov structure first
         "alone + skip_brute must emit nothing. all_lower: the loaded grammar must be the model with every C<n> replaced by the "
         "single group {L^n: 1.0}, all other variables unchanged, and the guess language the model's all-lower language. Second "
         "part: a session started with flags, interrupted, and resumed with --load (with or without other flags on the command line) must continue under the saved flags. "
-        "Non-trivial = ruleset without Markov, or Markov not in first position, or both flags on; distinct = hash of (model, flags).")
+        "Non-trivial = ruleset without Markov, or Markov not in first position, or both flags on; distinct = hash of (model, flags). Part many_structures: base lists of 100-160 and of 1500 lines (~40 KB) with the Markov line at chosen positions.")
 ASSUMPTIONS = ["well-formed rulesets; P(Markov) < 1 unless Markov is the only structure"]
 
 _DIR = None
